@@ -305,6 +305,7 @@ func runConc(c ConcCase, double bool) *pbt.Result {
 		return ch
 	}
 	stalled := func(stage string) *pbt.Result {
+		limit := hangLimit()
 		hangSeen.Store(true)
 		nIn := 0
 		for i := range inGet {
@@ -314,7 +315,7 @@ func runConc(c ConcCase, double bool) *pbt.Result {
 		}
 		sz := a.size()
 		msg := fmt.Sprintf("%s: no progress for %v: %d producer(s) unfinished, %d consumer(s) alive, %d inside Get/GetTimeout, Size()=%d",
-			stage, hangLimit(), prodsLeft.Load(), live.Load(), nIn, sz)
+			stage, limit, prodsLeft.Load(), live.Load(), nIn, sz)
 		if nIn > 0 && sz > 0 {
 			msg += " - a consumer is still blocked although an accepted element is waiting (lost wake-up)"
 		}
